@@ -38,6 +38,7 @@ void h_from_bytes(void)
 	if (which) ret = sm2_z256_point_from_bytes(&P, in);
 	else { sm2_z256_t xx, yy; sm2_z256_from_bytes(xx, in); sm2_z256_from_bytes(yy, in + 32); ret = sm2_z256_point_set_xy(&P, xx, yy); }
 	if (ret == 1) {
+		V_COVER("accept path 1");
 		CHECK(x < p && y < p, "accepted coordinates are below the field prime");
 		CHECK(g_oncurve_calls == 1 && g_oncurve_verdict == 1, "curve equation consulted and satisfied");
 		CHECK(val(g_ocx) == x && val(g_ocy) == y, "the equation was checked on exactly the decoded coordinates");
@@ -74,6 +75,7 @@ void h_from_octets(void)
 	if (ret == 1 && inlen == 33) {
 		CHECK((g_in[0] == 2 || g_in[0] == 3) && g_fromx_calls == 1 && g_fromx_verdict == 1, "33 octets: only 02/03 || X, and only if decompression succeeded");
 	} else if (ret == 1) {
+		V_COVER("accept path 2");
 		CHECK(inlen == 65 && g_in[0] == 0x04, "otherwise only 04 || X || Y is accepted");
 		W x = valb(g_in + 1), y = valb(g_in + 33);
 		CHECK(x < p && y < p && !(x == 0 && y == 0), "coordinates in range, not (0,0)");
